@@ -71,3 +71,9 @@ mk("m-c02-ot-rb-sender", {"C02": ["C02.W|ObliviousTransfer|roles|sender"]}, [(B 
 mk("m-c02-ot-helper-id", {"C02": ["C02.W|ObliviousTransfer|roles|sender"]}, [(B + "mpc/utils.rs",
    "        let helper_id = PARTIES as u64 - self.sender_id - self.receiver_id;", "        let helper_id = (self.receiver_id + 1) % PARTIES as u64;")],
    "OT: the helper is taken to be receiver+1, which is the sender for (sender, receiver) = (1,0), (2,1), (0,2)")
+mk("m-c02-mixed-key", {"C02": ["C02.W|multiply_bits_by_public_integers|roles|"]}, [(B + "mpc/mpc_arithmetic.rs",
+   "    let key_sh = prf_keys.tuple_get(party_h_id)?;", "    let key_sh = prf_keys.tuple_get(party_r_id)?;")],
+   "bit-by-public-integer product: the second mask is drawn under key R (held by R and H), which the integer owner S does not hold")
+mk("m-c02-mixed-forward", {"C02": ["C02.W|multiply_bits_by_public_integers|roles|sender"]}, [(B + "mpc/mpc_arithmetic.rs",
+   "        .add_annotation(NodeAnnotation::Send(party_r_id, party_h_id))?;", "        .add_annotation(NodeAnnotation::Send(party_h_id, party_r_id))?;")],
+   "the OT result is 'sent' by the helper, which never received it")
